@@ -41,6 +41,7 @@ mod expand;
 mod expect;
 mod iter;
 mod parse;
+mod progwf;
 mod quote;
 mod refsem;
 mod replace;
@@ -77,6 +78,7 @@ fn family(name: &str) -> Option<Box<dyn Family>> {
         "replace" => Some(Box::new(replace::Replace)),
         "search" => Some(Box::new(search::Search)),
         "refsem" => Some(Box::new(refsem::RefSem)),
+        "progwf" => Some(Box::new(progwf::ProgWf)),
         _ => None,
     }
 }
